@@ -11,6 +11,10 @@
 //	            Keeper.blockReward), i.e. the accounts are created in Go map order
 //	genesismaps genesis with SigningInfos / MissedBlocks maps for addresses without a validator
 //	            (InitGenesis ranges over both maps and writes new store keys)
+//	unstakequeue four nodes begin unstaking in one session (released together: one unstaking-queue entry
+//	            with the same completion time), then one of them is slashed for a double sign while
+//	            unstaking (SetValidator queues it again): whatever is done with the repeated entry
+//	            must not depend on map order
 //	unjail      a jailed node whose JailedUntil lies between the block time and the local clock of
 //	            the early runs; late runs start after it has passed (ValidateUnjailMessage reads
 //	            time.Now())
@@ -35,6 +39,7 @@ import (
 	sdk "github.com/pokt-network/pocket-core/types"
 	nodesKeeper "github.com/pokt-network/pocket-core/x/nodes/keeper"
 	nodesTypes "github.com/pokt-network/pocket-core/x/nodes/types"
+	abci "github.com/tendermint/tendermint/abci/types"
 	"github.com/tendermint/tendermint/libs/log"
 	dbm "github.com/tendermint/tm-db"
 
@@ -47,7 +52,7 @@ const chainID = "verif"
 
 var childEnv = []string{"GOMAXPROCS=2"}
 
-var kinds = []string{"delegators", "generic", "genesismaps", "generic", "delegators", "generic"}
+var kinds = []string{"delegators", "generic", "genesismaps", "unstakequeue", "generic", "delegators", "generic", "unstakequeue"}
 
 type cfg struct {
 	kind    string
@@ -72,6 +77,9 @@ func world(c cfg) (*chain.World, chain.GenesisOpts) {
 		o.GenesisTime = time.Unix(0, c.genTime).UTC()
 	}
 	switch c.kind {
+	case "unstakequeue":
+		o.ValidatorStake = 2 * w.MinStake // a slashed validator stays above the minimum stake (no force-unstake)
+		o.Mutate = func(g *chain.Genesis) { g.Nodes.Params.SessionBlockFrequency = 4 }
 	case "genesismaps":
 		o.Mutate = func(g *chain.Genesis) {
 			g.Nodes.SigningInfos = map[string]nodesTypes.ValidatorSigningInfo{}
@@ -132,6 +140,30 @@ func genHistory(c cfg) *chainx.History {
 				from := w.Accts[bi%4]
 				b.Txs = append(b.Txs, chain.SignTx(chainID, from, chain.MsgSend(from.Addr, w.Accts[(bi+1)%4].Addr, 1000), chain.DefaultFee, next(), ""))
 				ks = append(ks, "send-fee")
+			}
+			t = b.Time
+			h.AddBlock(b, ks)
+		}
+	case "unstakequeue":
+		leaving := []chain.Key{w.Servs[0], w.Servs[1], w.Vals[1], w.Vals[2]}
+		for bi := 0; bi < c.blocks; bi++ {
+			height := int64(bi + 1)
+			b, ds := w.GenBlock(r, t, height, 1)
+			ks := kindsOf(ds)
+			b.Time = t.Add(20 * time.Second) // evidence must stay younger than MaxEvidenceAge (2 min)
+			b.Evidence = nil
+			b.Proposer = w.Vals[0].Addr
+			if height == 3 { // all four ask to unstake in one session: released together at its end
+				for _, k := range leaving {
+					b.Txs = append(b.Txs, chain.SignTx(chainID, k, chain.MsgNodeUnstake(k.Addr, k.Addr), chain.DefaultFee, next(), ""))
+					ks = append(ks, "nodeunstake")
+				}
+			}
+			if height >= 6 && height%2 == 0 { // double-sign evidence against an unstaking validator
+				v := leaving[2+int(height/2)%2]
+				b.Evidence = append(b.Evidence, abci.Evidence{Type: "duplicate/vote", Validator: abci.Validator{Address: v.Addr, Power: 15000},
+					Height: height - 1, Time: t, TotalVotingPower: 45000})
+				ks = append(ks, "evidence:"+v.Addr.String()[:6])
 			}
 			t = b.Time
 			h.AddBlock(b, ks)
@@ -311,6 +343,9 @@ func main() {
 		}
 		if k == "delegators" {
 			nb = 5 + pr.Intn(3)
+		}
+		if k == "unstakequeue" {
+			nb = 9 + pr.Intn(3)
 		}
 		cfgs = append(cfgs, cfg{kind: k, hseed: *seed*1000003 + uint64(i)*7919 + 29, blocks: nb})
 	}
